@@ -1,7 +1,7 @@
 (* C06 -- Result types agree with LLVM's typing rules, in parser and IR alike. *)
 From Coq Require Import List Bool NArith ZArith String.
 From LLIR Require Import Lib.Bytes Model.Types Model.TypeString Model.ResultType Model.GoEval Gen.Printers.
-From LLIR Require Import Proofs.PrinterRefinement Proofs.ResultTypeProofs Proofs.TypeRuleRefinement Proofs.CExprTypeRefinement.
+From LLIR Require Import Proofs.PrinterRefinement Proofs.ResultTypeProofs Proofs.TypeRuleRefinement Proofs.CExprTypeRefinement Proofs.CallTypeRefinement.
 Import ListNotations.
 Open Scope string_scope.
 
@@ -147,3 +147,19 @@ Theorem C06_catchswitch_type_generated : forall bodies, run_type "ir.TermCatchSw
 Proof. exact catchswitch_type_generated. Qed.
 Print Assumptions C06_cexpr_shufflevector_type_generated.
 Print Assumptions C06_cexpr_conversion_type_generated.
+
+(* ---- call, invoke, callbr on regenerated code: Sig() and Type() ---- *)
+Theorem C06_callee_sig_generated :
+  Forall (fun kf => forall callee, run_sig (fst kf) (snd kf) callee = expect_sig callee) callee_kinds.
+Proof. exact sig_generated. Qed.
+Theorem C06_callee_type_generated : forall bodies,
+  Forall (fun kf => forall w callee, run_type (fst kf) [(snd kf, operand callee)] = expect (ir_type bodies (CallLike w callee)))
+         callee_kinds.
+Proof. exact callee_type_generated. Qed.
+Theorem C06_call_parser_and_ir_agree_generated : forall bodies w callee t,
+  llvm_type bodies (CallLike w callee) = Some t ->
+  run_new "asm.newCallInst" (VObj "ast.CallInst" [("Typ()", reify_ty w)]) = GoEval.Ok (reify_ty t)
+  /\ run_type "ir.InstCall" [("Callee", operand callee)] = GoEval.Ok (reify_ty t).
+Proof. exact call_parser_and_ir_agree_generated. Qed.
+Print Assumptions C06_callee_type_generated.
+Print Assumptions C06_call_parser_and_ir_agree_generated.
